@@ -10,7 +10,7 @@ BASE_NOTE = ("Trusted: Lean 4.33 kernel (+ leanchecker in thorough); axioms prop
              "correspondence run (generators, pool, canonicalisation); constants extractor; ")
 
 CLAIMED = {
-    'C01': ("dictNdl_eq_spec, kernel_threading_eq_spec, kernel_openmp_eq_spec, policy_error, policy_keep, dedup_perm_invariant: the models of dict_ndl and of the compiled kernel under every valid schedule equal the Rescorla-Wagner specification for every event list and parameter value; differential run of dict_ndl / ndl threading / ndl openmp vs the Lean driver with exact rational comparison.",
+    'C01': ("dictNdl_eq_spec, kernel_threading_eq_spec, kernel_openmp_eq_spec, policy_error, policy_keep, dedup_perm_invariant: the models of dict_ndl and of the compiled kernel under every valid schedule equal the Rescorla-Wagner specification for every event list and parameter value; differential run of dict_ndl / ndl threading / ndl openmp vs the Lean driver with exact rational comparison. Also ndl_eq_spec (whole ndl.ndl model end to end on names) and, for the call itself, ndl_call_eq_spec (non-empty files) / ndl_call_empty_openmp (zero-event file raises IOError; stream zero_events).",
             "IEEE-754 rounding (theorems over commutative rings; exact comparison only inside the exact-dyadic domain); malloc/fread success in the kernels."),
     'C02': ("schedule_independent_threading/_openmp for EVERY interleaving of the part programs, partitions (sliceList/ompParts), footprint_disjoint, work-queue protocol exactly-once/bounded/progress; real runs over n_jobs x chunk x method x PYTHONHASHSEED, exactly-once probe, and trace validation of the observed queue history against the Lean transition system.",
             "partial: OpenMP's actual scheduling is not observable (theorem under DRF=>SC + result comparison); threading.Lock is a mutex; fair scheduling of started threads."),
@@ -20,8 +20,8 @@ CLAIMED = {
             "partial: C memory safety beyond the capacity invariant; little-endian host; fopen failure and truncated files are outside the property; n+chunk < 2^32 (row partition wrap needs >= 2^31 rows, not exercisable here)."),
     'C09': ("windows_spec, word_to_word_spec, ngrams_spec, stream_eq_contexts(_line), no_cross_context, create_document_eq_contexts, tokens_clean, no_overwrite, pattern_constants (regexes regenerated from the source); generated corpora x all option combinations vs the Lean driver, events compared in order.",
             "str.lower / str.strip whitespace tables and re for the three concrete patterns are Python-supplied per input; LF-freeness of tokens checked by the harness only."),
-    'C03': ("learn_append, chain_eq_single (any k-way split), dict_continue, dict_chain_two, dict_from_data_array, abs_extend (new labels in later parts), input_preserved_partial; chains of 2-4 real learner calls in one process over every split position and learner mix, compared exactly with the model's single pass; snapshots of every weights argument before/after.",
-            "partial: non-aliasing of the weights argument inside numpy/xarray/deepcopy cannot be modelled functionally and is decided only by the snapshot comparison of the differential run; Widrow-Hoff chains are covered under C08."),
+    'C03': ("learn_append, chain_eq_single (any k-way split), dict_continue, dict_chain_two, dict_from_data_array, abs_extend (new labels in later parts), input_preserved_partial; chains of 2-4 real learner calls in one process over every split position and learner mix, compared exactly with the model's single pass; snapshots of every weights argument before/after. Also ndl_continue, ndl_chain_two, data_array_from_dict, dict_roundtrip, and for chains of ARBITRARY length with a different learner per part: chain_any_length, chain_any_length_from, chain_eq_single_call, chain_split_irrelevant (PyndlProofs/Chain.lean); streams: every piece in every documented input form, wh_chain (three Widrow-Hoff flavours).",
+            "partial: non-aliasing of the weights argument inside numpy/xarray/deepcopy cannot be modelled functionally and is decided only by the snapshot comparison of the differential run; Widrow-Hoff chains are tied by the differential run (stream wh_chain vs whModel's single pass), not part of chainRun; constant alpha along a chain; parts are non-empty (an empty part makes ndl.ndl raise IOError: ndl_call_empty_part_raises)."),
     'C07': ("splitOn_joinWith, parse_render (+ slice, general), freq_expand(_decimal), compatible_is_freq_one, forms_agree; event lists over a hostile Unicode alphabet x 4 containers x gzip/plain x compatible, frequency columns 0..5, input forms of ndl.ndl/dict_ndl cross-compared; F11 (CR in a token) reported as KNOWN-FINDING.",
             "gzip and the UTF-8 codec are identity; Python's universal-newline layer is modelled (LF, CR, CRLF); int(frequency) modelled for canonical ASCII-digit literals."),
     'C11': ("stride_perm, strided_sum (any commutative monoid), job_count_is_length, empty_slice_counts_zero, cues_outcomes_exact, n_jobs_irrelevant, word_counts_exact; event and corpus files x n_jobs 1..32 x lower_case vs the driver's direct count.",
@@ -34,8 +34,8 @@ CLAIMED = {
             "IEEE-754 rounding outside the exact-dyadic domain; xarray broadcasting in the numpy path; OpenMP scheduling under DRF=>SC."),
     'C12': ("act_eq_sum (matrix paths, multiplicity), act_cues_policy, act_missing (KeyError/ignore table), act_dict_eq_sum, paths_agree, events_independent (multi = single process), step_delta; DataArray (n_jobs 1..6) and dict-of-dicts weights vs the Lean model, exact; step_delta also on dict_ndl + activation() alone.",
             "numpy fancy indexing/sum and the shared-memory multiprocessing pool are trusted; exact comparison inside the dyadic domain."),
-    'C14': ("onehot_sum, wh_r2b_onehot_eq_rw, wh_b2r_onehot_eq_rw, wh_r2r_onehot_eq_rw and the counter-example for repeated outcomes; wh.wh (all flavours, shuffled one-hot tables with unused dimensions) vs ndl.ndl(alpha=1, betas=(eta,eta), lambda=1) on the same file, implementation vs implementation and both vs the Lean models.",
-            "IEEE-754 rounding outside the exact-dyadic domain."),
+    'C14': ("onehot_sum, wh_r2b_onehot_eq_rw, wh_b2r_onehot_eq_rw, wh_r2r_onehot_eq_rw and the counter-example for repeated outcomes; wh.wh (all flavours, shuffled one-hot tables with unused dimensions) vs ndl.ndl(alpha=1, betas=(eta,eta), lambda=1) on the same file, implementation vs implementation and both vs the Lean models. Whole event sequences on names: OneHotTable, wh*Spec_onehot_eq_rw, END TO END wh_{r2b,b2r,r2r}_onehot_eq_ndl (whModel vs ndlModel through their labels), table_row_order_irrelevant_* (PyndlProofs/WHOneHot.lean).",
+            "IEEE-754 rounding outside the exact-dyadic domain; wh_binary_binary is a call into ndl.ndl (differential run only); method='numpy' and dict_wh are outside whModel."),
     'C16': ("entries_count(_mixed), entries_late, split_join, pad_strip, stored_is_join, reports_call, raw_ndl/raw_wh, save_load_identity, sep_generated (separator literal regenerated from the source); chains of 1-4 calls of ndl / dict_ndl / wh flavours with save_load at random positions vs the driver.",
             "partial: netCDF4/HDF5/xarray serialisation cannot be modelled — the netCDF clause is decided only by the differential run (values bit-exact, coords, attrs, continued learning); Python str() of floats/tuples is Python-supplied."),
     'C17': ("fs_clean (bracket = with TemporaryDirectory: every body below its directory, every exit), exit_preserved, fs_clean_nested, chunk_paths_inside, old_spool_leaks (F7); every learner x path/generator/list x temporary_directory given/defaulted x success and every injected failure incl. storage budgets: directory listings and sha256 of the input before/after.",
@@ -44,8 +44,8 @@ CLAIMED = {
             "float accumulator vs rationals outside the dyadic stream (predicates only there); parseInt models -?[0-9]+ only."),
     'C10': ("imap_eq_map, chunk_independent, filter_order, filter_sublist, drop_iff_no_cue, keep_eq_remove_compl, map_id_eq_keep, select_idem/keep_idem/remove_idem, constructor_table, malformed_raises, seps_match_source (separators regenerated from the source); files of 0-300 events x all rule kinds x n_jobs 1..8 x chunksize, output compared in order with the driver, the four laws also as implementation pairs.",
             "independence of n_jobs rests on the ordering guarantee of multiprocessing.Pool.imap (trusted; sampled for n_jobs 1..8); one malformed line per file (a rare CPython Pool.terminate deadlock with many simultaneous worker exceptions is outside the property, see DESIGN §4)."),
-    'C15': ("conventions_agree (separators/header literals of writer, reader, filter, creator regenerated from the source), create_tokens_wf, filter_preserves_tokens, writer_reader_learner, writer_count, learner_activation_consistent; end-to-end pipelines corpus -> create_event_file -> filter_event_file -> cues_outcomes -> learner -> activation through the public API, every hand-over compared stage by stage with the stage models and the model-only chain compared with the final weights/activations.",
-            "partial: the single end-to-end `pipeline` theorem is not assembled in Lean (the stage models of C09/C10/C07 carry separate copies of splitOn); the interfaces are proved, the composition is sampled on the real code; trusted items of C01, C07, C09, C10, C11, C12 apply."),
+    'C15': ("conventions_agree (separators/header literals of writer, reader, filter, creator regenerated from the source), create_tokens_wf, filter_preserves_tokens, writer_reader_learner, writer_count, learner_activation_consistent; end-to-end pipelines corpus -> create_event_file -> filter_event_file -> cues_outcomes -> learner -> activation through the public API, every hand-over compared stage by stage with the stage models and the model-only chain compared with the final weights/activations. Assembled: split_join_shared, filter_commutes_with_render, writer_filter_reader_learner, pipeline (create -> file -> filter -> file -> reader -> dict_ndl = rwLearn on the token-level filtered events), pipeline_counts, pipeline_ndl, pipeline_ndl_dict_agree, pipeline_activation(_matrix), pipeline_next_step, pipeline_all (PyndlProofs/Pipeline.lean, Pipeline2.lean).",
+            "partial: ndl.ndl composed from scratch with constant alpha within Fits32; wh learners not composed; matrix-path activations for the training events only; gzip/UTF-8 identity; the text the creator writes is taken to be renderFile of the created events (header and line-format literals extracted); Pool.imap order trusted; trusted items of C01, C07, C09, C10, C11, C12 apply."),
     'C18': ("nom_eq_cov, var_zero_iff_const, reject_iff_const, nonfinite_rejected, raises_iff, corr_eq_pearson (over the reals), cell_sq_and_sign, cells_independent(_perm), kernel_schedule_independent, correlation_schedule_independent, layout_irrelevant; integer and float matrices in C/Fortran/strided layouts x n_jobs x chunksize: r^2 and sign vs exact rationals (2^-40), bit-identity across layouts/threads/chunks, the scipy reference, degenerate columns -> exception class. KNOWN-FINDING F12 (overflow/underflow columns).",
             "the square root is irrational: value comparison |r^2 - nom^2/den^2| <= 2^-40 in Fraction arithmetic; rounding in np.mean/np.std; generators stay inside |x| <= 9 resp. N(0,1) except the extreme_range stream of F12."),
     'C13': ("row_depends_only, rename_equivariant, cue_perm, affine, linear_part, lambda_homogeneous, beta2_zero, alpha_zero about rwLearn, transported to the implementations by C01; every law also run as a metamorphic relation between 2-3 runs of the real learners, exact in the dyadic domain.",
